@@ -117,6 +117,11 @@ func (c *Cache) addArchetype(arch *archetype) {
 				// Not required: can't add after removing,
 				// as the target entity is dead.
 				// if e.Indices != nil { e.Indices[arch] = int(e.Archetypes.Len() - 1) }
+				// It is required: archetypes for dead targets are (re-)created when entities that
+				// still point to the dead target are moved between archetypes.
+				if e.Indices != nil {
+					e.Indices[arch] = int(e.Archetypes.Len() - 1)
+				}
 			}
 			continue
 		}
